@@ -195,14 +195,66 @@ def working_fno(ctx):
                 f'MTF uses {b}; expected {want}',
                 construct=f'working FNO inf={inf}'))
     f = P.func('FFTMTF.__init__')
-    s = Code(P, f)
-    if 'self.FNO = self._get_fno()' in s and \
-            s.index('self.FNO = self._get_fno()') < s.index('self.max_freq = 1'):
-        res.ok('FFTMTF cut-off uses the working F-number')
+    res.saw(f)
+    # cut-off law on every path of the constructor on which the cut-off is
+    # requested: max_freq * (wavelength[um] * 1e-3) * FNO == 1 with the
+    # wavelength and F-number the object ends up holding (the ones the PSFs
+    # are computed with)
+    from ..rat import explore
+
+    def run(choose_u):
+        sym = Sym()
+
+        def inline(call, ev):
+            fn = call.func
+            if isinstance(fn, ast.Attribute) and isinstance(
+                    fn.value, ast.Name) and fn.value.id == 'self':
+                if fn.attr == '_get_fno':
+                    return A('WFNO')
+                if fn.attr == '_generate_mtf_data':
+                    return A('MTFDATA')
+                g_ = P.lookup('FFTMTF', fn.attr)
+                if g_ is not None and not call.args:
+                    sub = fn_eval(P, g_, sym=sym, heap=ev.heap,
+                                  inline=inline, choose=ch)
+                    return sub.returned
+            if isinstance(fn, ast.Attribute) and fn.attr == 'get_field_coords':
+                return A('FIELDS')
+            return None
+
+        def ch(test, ev):
+            t_ = unparse(test)
+            if t_.replace(' ', '') == "max_freq=='cutoff'" or \
+                    t_.replace(' ', '') == "self.max_freq=='cutoff'":
+                return True
+            return choose_u(test, ev)
+        ev = fn_eval(P, f, sym=sym, inline=inline, choose=ch)
+        return sym, ev
+    try:
+        outs = explore(run)
+    except Inconclusive as e:
+        raise AnalysisError(f'FFTMTF.__init__: {e}')
+    bad = None
+    for dec, (sym, ev) in outs:
+        mf = ev.heap.get('self.max_freq')
+        wl = ev.heap.get('self.wavelength')
+        fno = ev.heap.get('self.FNO')
+        if not all(isinstance(x, Rat) for x in (mf, wl, fno)):
+            bad = f'max_freq / wavelength / FNO not stored on a path ({dec})'
+            break
+        if not sym.eq(mf * wl * Rat.const('0.001') * fno, ONE) or \
+                not sym.eq(fno, A('WFNO')):
+            bad = (f'on the path with decisions {dec}: max_freq = {mf} while '
+                   f'the object holds wavelength {wl} and F-number {fno}')
+            break
+    if bad is None:
+        res.ok(f'FFTMTF cut-off = 1/(wavelength[mm] x working F#) with the '
+               f'wavelength the PSFs use, on {len(outs)} constructor paths')
     else:
         res.fail(ctx.finding('WORKING-FNO', f, f.node,
-                             'FFTMTF cut-off not computed from the working '
-                             'F-number', construct='FFTMTF working FNO'))
+                             'FFTMTF cut-off is not 1 / (wavelength in mm x '
+                             'working F-number) of the wavelength used: '
+                             + bad, construct='FFTMTF working FNO'))
     g = P.func('GeometricMTF.__init__')
     res.saw(g)
     s = Code(P, g)
@@ -623,4 +675,11 @@ def psf_norm(ctx):
     return res
 
 
-RULES = [no_stale, psf_norm, dft_sampling, working_fno, def_assign, shapes, geometric]
+def c04_marginal(ctx):
+    """shared with C04: the marginal ray and magnification behind XPD and the
+    working F-number"""
+    from .C04 import mag_inv as _r
+    return _r(ctx)
+
+
+RULES = [c04_marginal, no_stale, psf_norm, dft_sampling, working_fno, def_assign, shapes, geometric]
